@@ -52,7 +52,7 @@ def render(rng, wl, fmt):
 
 MUTATIONS = ['byteflip', 'nonascii', 'control', 'del_line', 'dup_line', 'swap_lines', 'no_first_gt', 'data_before_header', 'punct_before_header',
              'empty_record', 'header_only', 'single_record', 'huge_name', 'foreign_letters', 'digits', 'many_identical', 'zero_len', 'mixed_formats',
-             'truncate', 'msf_name_at_eol', 'random_bytes', 'format_words', 'empty_file', 'newlines_only', 'gt_only', 'long_line', 'extra_block_row', 'missing_block_row', 'nul_bytes', 'only_gaps', 'crlf', 'tabs']
+             'truncate', 'msf_name_at_eol', 'random_bytes', 'format_words', 'empty_file', 'newlines_only', 'gt_only', 'long_line', 'extra_block_row', 'block_grows', 'missing_block_row', 'nul_bytes', 'only_gaps', 'crlf', 'tabs']
 
 
 def mutate_input(rng, data, wl, fmt, which):
@@ -165,6 +165,12 @@ def mutate_input(rng, data, wl, fmt, which):
             return data
         lines.insert(i, b'intruder   ' + b'ACGT' * 5)
         return b'\n'.join(lines)
+    if which == 'block_grows' and fmt != 'fasta':
+        # a later block with hundreds of rows more than the first one (past the next growth step of the row array)
+        k = rng.choice([510, 520, 600, 1030])
+        alpha = b'ACGT' if wl['kind'] != 'protein' else b'ACDEFGHIKL'
+        extra = b'\n'.join(b'x%d    ' % j + bytes(rng.choice(alpha) for _ in range(12)) for j in range(k))
+        return data.rstrip(b'\n') + b'\n\n' + extra + b'\n'
     if which == 'missing_block_row' and fmt != 'fasta':
         i = pick_seq_line()
         if i is not None:
